@@ -70,19 +70,31 @@ def code_lines(rng, params: List[str], mo: str | None, result: str, is_coll: boo
     return lines
 
 
-def spec(rng, name: str | None = None, allow_coll: bool = True) -> Dict[str, Any]:
-    n = rng.choice([0, 1, 1, 2, 2, 2, 3, 4])
+INSTANCE_OBJECTS = ["xAOD::Jet_v1", "xAOD::Jet_v1", "reco::Muon", "obj"]
+
+
+def spec(rng, name: str | None = None, allow_coll: bool = True, mo_prob: float = 0.35, min_args: int = 0,
+         extra_params: List[str] | None = None) -> Dict[str, Any]:
+    n = max(min_args, rng.choice([0, 1, 1, 2, 2, 2, 3, 4]))
     params = rng.sample(PARAMS, n)
+    if extra_params and n >= 1 and rng.random() < 0.7:  # a formal named like a word of the receiver's C++ text
+        w = rng.choice(extra_params)
+        if w not in params:
+            params[rng.randrange(n)] = w
     if n >= 2 and rng.random() < 0.04:
         params[1] = params[0]  # duplicate parameter name: the first binding wins
-    mo = rng.choice(METHOD_OBJECTS) if rng.random() < 0.35 else None
+    mo = rng.choice(METHOD_OBJECTS) if rng.random() < mo_prob else None
+    # the optional key `instance_object` is documentation: given or not independently of `method_object`
+    # (mostly as the documentation has it: together with method_object)
+    r = rng.random()
+    inst = (rng.choice(INSTANCE_OBJECTS) if r < 0.7 else None) if mo is not None else (rng.choice(INSTANCE_OBJECTS) if r < 0.15 else None)
     is_coll = allow_coll and rng.random() < 0.2
     ty = rng.choice(OBJ_TYPES) if rng.random() < (0.5 if is_coll else 0.08) else rng.choice(TYPES)
     result = rng.choice(RESULT_NAMES)
     return {
         "name": name or rng.choice(FUNC_NAMES), "includes": rng.sample(INCLUDES, rng.choice([0, 1, 1, 2])), "args": params,
         "code": code_lines(rng, params, mo, result, is_coll, ty), "result": result, "retType": ty,
-        "isCollection": is_coll, "methodObject": mo,
+        "isCollection": is_coll, "methodObject": mo, "instanceObject": inst,
     }
 
 
